@@ -88,7 +88,10 @@ def main():
         all_units = [u for u in all_units if u["id"] in args.unit]
     def unit_tier(u):
         return (u.get("tier_for") or {}).get(prop, u.get("tier", "quick"))
-    sel = [u for u in all_units if tier == "thorough" or unit_tier(u) == "quick"]
+    if args.unit:
+        sel = all_units  # explicit units (incl. tier "manual": written, but in no registered command)
+    else:
+        sel = [u for u in all_units if unit_tier(u) == "quick" or (tier == "thorough" and unit_tier(u) == "thorough")]
     if not sel:
         log(f"no units registered for {prop}")
         return core.EXIT_UNDECIDED
